@@ -11,6 +11,7 @@ import (
 	"runtime/debug"
 
 	hwebsocket "github.com/aukilabs/hagall-common/websocket"
+	"github.com/aukilabs/hagall/models"
 	"github.com/prometheus/client_golang/prometheus"
 	dto "github.com/prometheus/client_model/go"
 )
@@ -104,3 +105,6 @@ func VerifConnectedClients() float64 {
 	}
 	return sum
 }
+
+// VerifCurrentSession returns the session this handler believes it is in (nil when not joined).
+func (h *RealtimeHandler) VerifCurrentSession() *models.Session { return h.currentSession }
